@@ -1545,6 +1545,7 @@ pub fn lifecycle_conformance(ctx: &Ctx, n: usize, stats: bool) -> Result<Value, 
     let mismatches: Mutex<Vec<Value>> = Mutex::new(vec![]);
     let failed: Mutex<Option<String>> = Mutex::new(None);
     let next = AtomicU64::new(0);
+    let replayed = AtomicU64::new(0);
     let nthreads = crate::util::nthreads().min(16).min(paths.len().max(1));
     std::thread::scope(|s| {
         for t in 0..nthreads {
@@ -1554,15 +1555,19 @@ pub fn lifecycle_conformance(ctx: &Ctx, n: usize, stats: bool) -> Result<Value, 
             let mismatches = &mismatches;
             let failed = &failed;
             let next = &next;
+            let replayed = &replayed;
             std::thread::Builder::new()
                 .name(format!("conf-{}", t))
                 .spawn_scoped(s, move || {
                     let slot = Slot::new(2);
                     loop {
                         let k = next.fetch_add(1, Relaxed) as usize;
-                        if k >= paths.len() || failed.lock().unwrap().is_some() {
+                        // five divergences are reported; more replays add nothing (and a blocked
+                        // process costs two timeouts per replay)
+                        if k >= paths.len() || failed.lock().unwrap().is_some() || mismatches.lock().unwrap().len() >= 5 {
                             return;
                         }
+                        replayed.fetch_add(1, Relaxed);
                         let mut attempt = 0;
                         loop {
                             match replay_named(scn, &slot, g, &paths[k]) {
@@ -1596,5 +1601,5 @@ pub fn lifecycle_conformance(ctx: &Ctx, n: usize, stats: bool) -> Result<Value, 
     }
     Ok(json!({"model": "models/gen_lifecycle.py (TLA+), checked by TLC: TypeOK, NoWorkerLostBeforeSignal, CleanJoin, Termination (liveness under weak fairness)",
               "num_workers": n, "client_stats": stats, "model_states": g.states, "model_transitions": g.transitions,
-              "traces_replayed": paths.len(), "transitions_covered": g.transitions, "divergences": mm.len()}))
+              "traces_replayed": replayed.load(Relaxed), "traces_in_cover": paths.len(), "transitions_covered": if replayed.load(Relaxed) as usize == paths.len() { g.transitions } else { 0 }, "divergences": mm.len()}))
 }
